@@ -279,8 +279,10 @@ class MemTermsReader(base.TermsReader):
         return term in self._segment._terminfos
 
     def terms(self):
-        for fieldname in self._invindex:
-            for btext in self._invindex[fieldname]:
+        # In lexical order, like every other terms reader (the readers that
+        # combine segments merge these listings)
+        for fieldname in sorted(self._invindex):
+            for btext in sorted(self._invindex[fieldname]):
                 yield (fieldname, btext)
 
     def terms_from(self, fieldname, prefix):
